@@ -259,6 +259,8 @@ theorem gen_function_semantics_unary (t : CType) (op : String) (rt : CType) (g :
     (fkind t = .float ∧ op = "abs" ∧ ctxFn (ctxTyK (fkind t)) "singleArgs" op = some "math.Abs") ∨
     Implements1 (genTerm (ctxTyK (fkind t)) "singleArgs" op) (fkind t) rt g := by
   unfold evalUnary at h
+  simp only [noUser, Bool.false_and, Bool.false_eq_true, ↓reduceIte] at h
+  unfold evalUnaryBase at h
   split at h
   · simp at h
   · split at h <;> (try (simp_all [noUser]; done)) <;>
@@ -325,6 +327,8 @@ theorem gen_function_semantics_binary (t : CType) (op : String) (g : Cell → Ce
     (h : evalBinary "d" op t = some g) :
     Implements2 (genTerm (ctxTyK (fkind t)) "doubleArgs" op) (fkind t) g := by
   unfold evalBinary at h
+  simp only [noUser, Bool.false_and, Bool.false_eq_true, ↓reduceIte] at h
+  unfold evalBinaryBase at h
   split at h
   · simp at h
   split at h
@@ -490,7 +494,7 @@ theorem spec_gaps :
     evalBinary "d" "/" .int = none ∧ evalUnary "d" "float" .int = none ∧
     evalBinary "d" "/" .float = none ∧ evalUnary "d" "int" .float = none ∧ evalUnary "d" "str" .float = none ∧
     evalUnary "d" "upper" .string = none ∧ evalUnary "d" "lower" .string = none := by
-  refine ⟨?_, ?_, ?_, ?_, ?_, ?_, ?_⟩ <;> simp [evalBinary, evalUnary, noUser, fkind]
+  refine ⟨?_, ?_, ?_, ?_, ?_, ?_, ?_⟩ <;> simp [evalBinary, evalUnary, evalBinaryBase, evalUnaryBase, noUser, fkind]
 
 /-- What today's terms of the gap entries mean under `FE.eval`: int `/` panics (no value) on a zero divisor and
 truncates otherwise (MinInt64 / -1 wraps); `float` is the conversion `fOfInt`; float `/` is `fDiv`; float→int and
